@@ -160,8 +160,10 @@ impl<A: smallvec::Array<Item = u8>> Parse for SmallString<A> {
 						if parser.options.accept_truncated_surrogate_pair {
 							result.push('\u{fffd}');
 						} else {
+							// The span covers the high surrogate escape only
+							// (`uXXXX`), not the character that follows it.
 							break Err(Error::MissingLowSurrogate(
-								Span::new(p_high, parser.position),
+								Span::new(p_high, p_high + 5),
 								high as u16,
 							));
 						}
